@@ -23,6 +23,7 @@ type JobResult struct {
 	Res     *spec.Result
 	Fatal   string // non-empty: the worker process died while this job was in flight (stderr head)
 	Timeout bool   // wall-clock watchdog fired (environment backstop)
+	WallCap bool   // not evaluated: the batch's wall-clock cap was reached (evidence says so; never a verdict)
 	Stderr  string // stderr produced during the job (race reports etc.)
 }
 
@@ -36,6 +37,7 @@ type Pool struct {
 	N       int
 	Fresh   bool // a new process per job
 	Timeout time.Duration
+	Deadline time.Time // zero = none: after it no new job starts and jobs in flight are abandoned (WallCap)
 	idle    chan *worker // persistent workers shared by all copies of this pool
 }
 
@@ -184,6 +186,16 @@ func (p *Pool) do(w *worker, job *spec.Job) (jr JobResult, alive bool) {
 	if to == 0 {
 		to = 120 * time.Second
 	}
+	capped := false
+	if !p.Deadline.IsZero() {
+		if left := time.Until(p.Deadline); left < to {
+			to = left
+			capped = true
+			if to < 0 {
+				to = 0
+			}
+		}
+	}
 	select {
 	case r := <-done:
 		if r.err != nil {
@@ -199,7 +211,11 @@ func (p *Pool) do(w *worker, job *spec.Job) (jr JobResult, alive bool) {
 		jr.Stderr = w.errBuf.take()
 		return jr, true
 	case <-time.After(to):
-		jr.Timeout = true
+		if capped {
+			jr.WallCap = true
+		} else {
+			jr.Timeout = true
+		}
 		w.kill()
 		jr.Stderr = w.errBuf.take()
 		return jr, false
@@ -231,6 +247,10 @@ func (p *Pool) Run(jobs []*spec.Job, progress func(int)) []JobResult {
 			var w *worker
 			defer func() { p.put(w) }()
 			for i := range idx {
+				if !p.Deadline.IsZero() && time.Now().After(p.Deadline) {
+					out[i] = JobResult{Job: jobs[i], WallCap: true}
+					continue
+				}
 				if w == nil || p.Fresh {
 					w.kill()
 					var err error
